@@ -361,3 +361,22 @@ CHECKS['C12']['text'] += (
     "runs exactly at its date and moves the position by one, no other event does); slot_event_starts / uncapacitated_slot / capacitated_after_slot (at most the slot size starts per slot; capacitated: at most max(size - in service, 0) starts, and at most the size in service "
     "right after a pre-emptive capacitated slot when the counter does not over-count); starts_only_in_slot / run_between_slots (between its slot events nobody starts or restarts service at a slotted node; scope: no reroute option, no pre-emptive Schedule / slot at OTHER nodes); "
     "capacity_after_nonpreemptive_slot_refuted (a NON-pre-emptive capacitated slot of size 1 after one of size 2 leaves two in service: by design).")
+CHECKS['C20']['text'] += (
+    " T2 on BOTH ENGINE MODELS (the tie of the decimal theorems to the engine): Inv/DateSum.v (stage 1; Properties/C20_engine.v) - event_step_ds / run_many_ds / records_ds: every date the engine holds or records "
+    "(clock, arrival table, next event dates, servers' end dates, every customer's and every record's dates, service times) is a SUM OF SAMPLED VALUES (Sum D, D = the inter-arrival and service samples drawn so far; batch sizes and uniforms provably never reach a date), "
+    "every duration (waiting time, time blocked, busy time) a difference of two such sums, and record_means: r_wait = r_sst - r_arr, r_send = r_sst + r_stime, r_blocked = r_exit - r_send - for every configuration, every oracle, any number of events, no hypothesis on the draws; "
+    "now_is_a_sum connects to Decimal.sum_exact; grid / run_many_grid: if every sample is a multiple of g so is every date and duration (no drift). Inv/DateSum2.v (stage 2; Properties/C20_stage2.v) - event_step_grid / run_many_grid / records_grid / no_drift / "
+    "dates_in_generated_group: with routers, reneging, pre-emption (resume stores end - now and adds it back), Schedules (the generator off + b[k mod n] + (k / n) * cycle is the only multiplication of a date), slots and class change while waiting, every date and duration of every state "
+    "and record lies in the additive group generated by the samples and the timetable constants (= the multiples of their gcd), for EVERY configuration; off_grid_timetable_leaves_grid / off_grid_sample_leaves_grid show both hypotheses are needed. "
+    "K: each real exact run is accompanied by a run of the same generated configuration with every time value multiplied by g in {3, 7, 10, 11} under observation: K2 (model stepped from the implementation's snapshots and draws, date slice) and the extracted "
+    "DateSum.ds_b / DateSum2.ongrid_b, logon_b, grid_b, drawson_b (dispatch 43 / 42) on every real snapshot and record: a date that is not a multiple of g is clause 220 with the configuration as the failing input.")
+CHECKS['C03']['text'] += (
+    " Journey2r.v (1 850 lines) extends the journey theorems to the `reroute` pre-emption option (scope2r: no capacities with pre-emption, the rerouting router never answers the node itself or another reroute node, no process-based routes with reroute): "
+    "event_step_jrn2r / engine_journey2r / reroute_record_followed (the interruption record WITH destination d is followed by a visit record at d arriving at the record's exit date); f11a_not_a_witness / reroute_cycle_not_a_witness: F-11a double starts do not break the journey; "
+    "slotted_service_journey_partial (function level) and jrn2_not_kept_by_preemptive_slot for pre-emptive capacitated slots (not covered at run level). The real-history check (dispatch 40) now also runs inside scope2r.")
+CHECKS['C18']['text'] += (
+    " Knot2.v (1 640 lines; Properties/C18_stage2.v) - the STAGE-2 engine model: knot2_is_permanent / knot2_is_permanent_in_scope / deadlock_is_permanent2 / deadlocked2_b_iff: a structural knot K is permanent (same server objects, same customers, untouched records, any number of events, "
+    "every oracle) whenever the nodes OF K have fixed servers, no pre-emptive priorities and no reneging - whatever the other nodes, the routers, jockeying, class change do; and each excluded feature is REFUTED by a closed witness: knot2_refuted_priority_preempt (F-02a), "
+    "knot2_refuted_preemptive_schedule (F-02b), knot2_refuted_schedule and knot2_refuted_reneging - the two NEW open findings F-18b and F-18a (a non-pre-emptive Schedule brings new servers / Node.renege ends in release_blocked_individual: the reported deadlock dissolves), both reproduced on the real engine. "
+    "K: 'after' jobs continue the real simulation after simulate_until_deadlock returned (regions deadlock, deadlock_renege, deadlock_sched): no customer of the reported knot may ever move (clause 96; F-18a / F-18b are reported as KNOWN-FINDING through their triggers only), and the extracted "
+    "knot_scope / knot2_b / noscope_b (dispatch 44) are evaluated on the real snapshot at the report (hypotheses) and on later real snapshots (conclusion).")
